@@ -54,6 +54,26 @@ Definition run (fields : list str) : list str :=
                     end
         | _ => BAD
         end
+      else if tag_is tag [99;97;115;116] then
+        (* "cast" value size signed *)
+        match args with
+        | [z; sz; sg] => match Z_of_dec z with
+                         | Some zz => [dec_of_Z (truncate_int_value zz (nd sz) (bool_of_str sg))]
+                         | None => BAD
+                         end
+        | _ => BAD
+        end
+      else if tag_is tag [99;99;104;97;114] then
+        (* "cchar" platform cpp literal -> value of the token | e *)
+        match args with
+        | [name; cpp; s] =>
+            match find_platform name Gen_platforms, char_literal_to_ll s, narrow_nbytes s with
+            | Some p, Some z, Some n => [dec_of_Z (char_token_value p (bool_of_str cpp) n z)]
+            | Some p, Some z, None => [dec_of_Z z]
+            | _, _, _ => [[101]]
+            end
+        | _ => BAD
+        end
       else if tag_is tag [103;101;110;108;105;116] then
         (* the specification side: value of the literal spelled base/digit-values/suffix *)
         match args with
